@@ -217,6 +217,18 @@ pub fn format_buf(args: Vec<Rc<Object>>) -> Result<Collector, String> {
             continue;
         }
         if in_spec {
+            if in_spec_format
+                && (next == '<' || next == '>')
+                && curr_spec_width.is_empty()
+                && curr_spec_padding.is_empty()
+                && matches!(curr_spec_just, SpecJustify::Default)
+            {
+                // a character directly before '<' or '>' is the fill, whatever it is
+                // (it is moved to the padding when the '<' or '>' is read)
+                curr_spec_width.push(curr);
+                idx_fmt += 1;
+                continue;
+            }
             if curr == ':' {
                 in_spec_format = true;
                 idx_fmt += 1;
